@@ -315,8 +315,11 @@ def r083(ctx):
     low = [e for e in rv.events if e.kind == "store" and e.data.get("tkind") == "attr" and e.data["attr"] == "L_low" and e.loops]
     okm = bool(low) and bool(inner)
     for e in low:
-        lit = pc_literals(e.pc)[-1]
-        okm = okm and lit.op == "cmp" and lit.args[0] == "<" and lit.args[1] is e.data["value"] and e.data["value"] is mk("sub", inner[0].data["result"], const(0))
+        lit = A3.C.canon(pc_literals(e.pc)[-1])
+        new_v = A3.C.canon(e.data["value"])
+        # canonical orientation is `<` / `<=` with the smaller side first: the new candidate must be on the small side
+        okm = okm and lit.op == "cmp" and lit.args[0] in ("<", "<=") and lit.args[1] is new_v and not contains(lit.args[2], lambda s: s is new_v) \
+            and e.data["value"] is mk("sub", inner[0].data["result"], const(0))
     ctx.ob("R08.3", rv.func, low[0].node if low else None, okm, "L_low is replaced only by a smaller value (running minimum)",
            construct="L_low minimum")
     # LP simplex row
